@@ -627,12 +627,15 @@ def worker(bdir, tools, lo, hi):
     res = core.Result()
     b = build.Build("asan", bdir)
     sb = Sandbox(b, tools)
-    for i in range(lo, hi):
-        try:
-            run_case(res, sb, i)
-        except core.Inconclusive as e:
-            res.inconclusive.append("case %d: %s" % (i, e))
-        shutil.rmtree("%s/h%d" % (sb.base, i), ignore_errors=True)
+    try:
+        for i in range(lo, hi):
+            try:
+                run_case(res, sb, i)
+            except core.Inconclusive as e:
+                res.inconclusive.append("case %d: %s" % (i, e))
+            shutil.rmtree("%s/h%d" % (sb.base, i), ignore_errors=True)
+    finally:
+        shutil.rmtree(sb.base, ignore_errors=True)      # (pool workers do not run atexit handlers)
     return res
 
 
